@@ -36,7 +36,15 @@ type vsession struct {
 	Upstream                              string
 }
 
-func secs(ns int64) int64 { return int64(math.Round(float64(ns) / 1e9)) }
+// zeroT marks a deadline that is Go's zero time.Time (year 1); Coq sees a very early instant.
+const zeroT = int64(math.MinInt64 / 4)
+
+func secs(ns int64) int64 {
+	if ns == zeroT {
+		return -62135596800
+	}
+	return int64(math.Round(float64(ns) / 1e9))
+}
 
 func (v *vsession) coq() string {
 	g := "None"
@@ -58,7 +66,12 @@ func (v *vsession) json() map[string]interface{} {
 }
 
 func toReal(v *vsession, vnow int64, real time.Time) *sessions.SessionState {
-	at := func(d int64) time.Time { return real.Add(time.Duration(d - vnow)) }
+	at := func(d int64) time.Time {
+		if d == zeroT {
+			return time.Time{}
+		}
+		return real.Add(time.Duration(d - vnow))
+	}
 	s := &sessions.SessionState{ProviderSlug: v.Slug, ProviderType: "sso", Email: v.Email, User: v.User,
 		AccessToken: v.Access, RefreshToken: v.RefreshTok, RefreshDeadline: at(v.RefreshDL), LifetimeDeadline: at(v.LifetimeDL),
 		ValidDeadline: at(v.ValidDL), Groups: v.Groups, AuthorizedUpstream: v.Upstream}
@@ -69,7 +82,12 @@ func toReal(v *vsession, vnow int64, real time.Time) *sessions.SessionState {
 }
 
 func fromReal(s *sessions.SessionState, vnow int64, real time.Time) *vsession {
-	to := func(t time.Time) int64 { return vnow + int64(t.Sub(real)) }
+	to := func(t time.Time) int64 {
+		if t.IsZero() {
+			return zeroT
+		}
+		return vnow + int64(t.Sub(real))
+	}
 	v := &vsession{Slug: s.ProviderSlug, Email: s.Email, User: s.User, Access: s.AccessToken, RefreshTok: s.RefreshToken,
 		RefreshDL: to(s.RefreshDeadline), LifetimeDL: to(s.LifetimeDeadline), ValidDL: to(s.ValidDeadline),
 		Groups: s.Groups, Upstream: s.AuthorizedUpstream}
@@ -129,7 +147,7 @@ func (a ans) coq() string {
 var statusPool = []int{401, 429, 503, 500, 0, 403, 404, 502}
 
 func genAns(r *c.Rng, pOK float64) ans {
-	a := ans{RefreshStatus: 201, RefreshTok: "at2", RefreshDur: []int64{1800, 7200}[r.Intn(2)], ValidateStatus: 200, ProfileStatus: 200,
+	a := ans{RefreshStatus: 201, RefreshTok: "at2", RefreshDur: []int64{1800, 7200, 1800, 7200, 0, -60, 1000000000}[r.Intn(7)], ValidateStatus: 200, ProfileStatus: 200,
 		ProfileGroups: [][]string{{"g1"}, {"g1", "other"}, {"other"}, {}}[r.Intn(4)]}
 	if r.Chance(pOK) {
 		if r.Chance(0.8) {
@@ -369,7 +387,7 @@ func settle(vnow int64, s *vsession, G int64) int64 {
 	for k := 0; k < 6; k++ {
 		bad := false
 		chk := func(d int64) {
-			if d-vnow < 30*sec && vnow-d < 30*sec {
+			if d != zeroT && d-vnow < 30*sec && vnow-d < 30*sec {
 				bad = true
 			}
 		}
@@ -395,7 +413,17 @@ func genSession(r *c.Rng, w *world, vnow int64) *vsession {
 		RefreshDL: off(-600, 600, 600, 3600), LifetimeDL: off(-3600, 3600, 86400, 86400, 86400), ValidDL: off(-120, 120, 120),
 		Groups: []string{}, Upstream: host}
 	if r.Chance(0.12) {
-		s.Slug = "okta"
+		s.Slug = []string{"okta", "", "GOOGLE", "google "}[r.Intn(4)]
+	}
+	if r.Chance(0.06) {
+		switch r.Intn(3) {
+		case 0:
+			s.LifetimeDL = zeroT
+		case 1:
+			s.RefreshDL = zeroT
+		case 2:
+			s.ValidDL = zeroT
+		}
 	}
 	if r.Chance(0.12) {
 		s.Upstream = []string{"other.example.test", "APP.EXAMPLE.TEST", "app.example.test:80", "", decoyHost}[r.Intn(5)]
@@ -429,6 +457,8 @@ func single(r *c.Rng, auth *c.FakeAuth, worlds []*world) c.Case {
 		rq.Path = "/x/page?next=/open/thing" // only the QUERY matches a skip pattern
 	case 6:
 		rq.Path = "/x/page?z=thing"
+	case 7:
+		rq.Method = []string{"HEAD", "POST", "PUT", "DELETE", "PATCH", "TRACE"}[r.Intn(6)]
 	}
 	rq.XHR = r.Chance(0.15)
 	switch r.Intn(12) {
@@ -452,6 +482,18 @@ func single(r *c.Rng, auth *c.FakeAuth, worlds []*world) c.Case {
 				rq.Headers[h] = hv[r.Intn(len(hv))]
 			}
 		}
+		// headers that tempt special-casing: method overrides, probes, upgrades, pre-authenticated markers
+		for h, vals := range map[string][]string{
+			"X-Http-Method-Override": {"OPTIONS", "GET"}, "X-Method-Override": {"OPTIONS"},
+			"User-Agent": {"kube-probe/1.27", "ELB-HealthChecker/2.0", "GoogleHC/1.0", "curl/8"},
+			"Upgrade": {"websocket"}, "Connection": {"Upgrade", "keep-alive"},
+			"X-Forwarded-Proto": {"https", "http"}, "X-Authenticated": {"true"}, "X-Sso-Skip-Auth": {"1"},
+			"Access-Control-Request-Method": {"GET"}, "Origin": {"https://evil.example"},
+		} {
+			if r.Chance(0.12) {
+				rq.Headers[h] = vals[r.Intn(len(vals))]
+			}
+		}
 	}
 	a := genAns(r, 0.45)
 	o := w.step(auth, vnow, rq, a)
@@ -467,7 +509,7 @@ func history(r *c.Rng, auth *c.FakeAuth, worlds []*world, linear bool, maxLen in
 	if len(w.Pol.Doms) > 0 || len(w.Pol.Addrs) > 0 {
 		email = "a@example.com"
 	}
-	exp := []int64{1800, 7200}[r.Intn(2)]
+	exp := []int64{1800, 7200, 1800, 7200, 0, -60, 120, 1000000000}[r.Intn(8)]
 	rt := "rt"
 	if r.Chance(0.1) {
 		rt = ""
